@@ -1,6 +1,2024 @@
-//! C19 — not built yet.
+//! C19 — recursive resolution ignores out-of-bailiwick data and always terminates.
+//!
+//! A case line describes a small simulated internet as a *table* `(server group, query) → response`
+//! (fully adversarial: any records in any section), the recursor's limits/filters and a sequence of
+//! user queries.  The real `hickory_resolver::recursor::Recursor` is run over a mock
+//! `ConnectionProvider` that answers from the table and logs every `(server ip, query)` it receives.
+//!
+//! Line:  `res <rl> <nl> <roots> <deny_srv> <allow_srv> <deny_ans> <allow_ans> <names> <groups> <table> <queries>`
+//!   ip        `4.<u32>` | `6.<u128>`           lists `,`-separated, `-` = empty
+//!   net       `<ip>/<len>`
+//!   names     name tokens (`F:hex.hex`) separated by `,`; everything else refers to names by index
+//!   record    `<name>:<ttl>:<rdata>`  rdata = `A<u32>` | `Q<u128>` | `N<name>` | `C<name>` | `S<minimum>` | `T<tag>`
+//!   records   `+`-separated, `-` = empty
+//!   response  `<rcode>/<aa>/<answers>/<authorities>/<additionals>`
+//!   groups    `;`-separated `<ips>@<default response>`   (an ip in no group is unreachable: io error)
+//!   table     `;`-separated `<group>,<name>,<qtype>=<response>`
+//!   queries   `;`-separated `<name>,<qtype>`   (run in order against the same recursor)
+//!
+//! Output (compared with the Lean model when every pool that can be formed is homogeneous, i.e. all its
+//! addresses belong to one server group — otherwise the pool's random server order decides and the line
+//! is implementation-vs-oracle only, `~`):
+//!   per query `<class> <rcode> <aa> <sorted records> T=<sorted set of group.qname.qtype sent> X=<sorted unreachable ips tried>`
+//!
+//! Second line kind: `stub <names> <table> <query>` — alias chasing of the stub resolver (CachingClient):
+//!   one upstream, table `<name>,<qtype>=<response>`; output `<class> n=<upstream queries>`.
+use std::collections::{BTreeMap, BTreeSet};
+use std::net::{IpAddr, Ipv4Addr, Ipv6Addr};
+use std::pin::Pin;
+use std::sync::{Arc, Mutex};
+use std::time::{Duration, Instant};
+
+use futures_util::stream::{once, Stream};
+use hickory_net::runtime::TokioRuntimeProvider;
+use hickory_net::xfer::DnsHandle;
+use hickory_net::{DnsError, NetError};
+use hickory_proto::op::{DnsRequest, DnsResponse, Message, OpCode, Query, ResponseCode};
+use hickory_proto::rr::rdata::{A, AAAA, CNAME, NS, SOA, TXT};
+use hickory_proto::rr::{Name, RData, Record, RecordType};
+use hickory_resolver::config::ConnectionConfig;
+use hickory_resolver::recursor::{Recursor, RecursorError, RecursorOptions};
+use hickory_resolver::{ConnectionProvider, PoolContext};
+use ipnet::IpNet;
+
 use crate::common::*;
 
-pub fn run(_o: &Opts, rec: &mut Recorder) {
-    rec.rule = "stub".into();
+// ------------------------------------------------------------------------------------------ case
+
+#[derive(Clone, Debug, PartialEq, Eq, Hash, PartialOrd, Ord)]
+pub enum RD {
+    A(u32),
+    Q(u128),
+    N(usize),
+    C(usize),
+    S(u32),
+    T(u32),
+}
+
+#[derive(Clone, Debug, PartialEq, Eq, Hash, PartialOrd, Ord)]
+pub struct Rec {
+    pub name: usize,
+    pub ttl: u32,
+    pub data: RD,
+}
+
+#[derive(Clone, Debug, PartialEq, Eq, Default)]
+pub struct Resp {
+    pub rcode: u16,
+    pub aa: bool,
+    pub ans: Vec<Rec>,
+    pub auth: Vec<Rec>,
+    pub add: Vec<Rec>,
+}
+
+impl Resp {
+    fn all(&self) -> impl Iterator<Item = &Rec> {
+        self.ans.iter().chain(self.auth.iter()).chain(self.add.iter())
+    }
+}
+
+#[derive(Clone, Debug)]
+pub struct Group {
+    pub ips: Vec<IpAddr>,
+    pub default: Resp,
+}
+
+#[derive(Clone, Debug)]
+pub struct Case {
+    pub rl: u8,
+    pub nl: u8,
+    pub roots: Vec<IpAddr>,
+    pub deny_srv: Vec<IpNet>,
+    pub allow_srv: Vec<IpNet>,
+    pub deny_ans: Vec<IpNet>,
+    pub allow_ans: Vec<IpNet>,
+    pub names: Vec<Name>,
+    pub groups: Vec<Group>,
+    pub table: BTreeMap<(usize, usize, u16), Resp>,
+    pub queries: Vec<(usize, u16)>,
+}
+
+pub fn ip_tok(ip: &IpAddr) -> String {
+    match ip {
+        IpAddr::V4(a) => format!("4.{}", u32::from(*a)),
+        IpAddr::V6(a) => format!("6.{}", u128::from(*a)),
+    }
+}
+
+fn parse_ip(t: &str) -> Option<IpAddr> {
+    let (k, v) = t.split_once('.')?;
+    match k {
+        "4" => Some(IpAddr::V4(Ipv4Addr::from(v.parse::<u32>().ok()?))),
+        "6" => Some(IpAddr::V6(Ipv6Addr::from(v.parse::<u128>().ok()?))),
+        _ => None,
+    }
+}
+
+fn parse_list<T>(t: &str, sep: char, f: impl Fn(&str) -> Option<T>) -> Option<Vec<T>> {
+    if t == "-" {
+        return Some(vec![]);
+    }
+    t.split(sep).map(|x| f(x)).collect()
+}
+
+fn parse_net(t: &str) -> Option<IpNet> {
+    let (ip, len) = t.split_once('/')?;
+    IpNet::new(parse_ip(ip)?, len.parse().ok()?).ok()
+}
+
+fn net_tok(n: &IpNet) -> String {
+    format!("{}/{}", ip_tok(&n.addr()), n.prefix_len())
+}
+
+fn parse_rec(t: &str) -> Option<Rec> {
+    let mut it = t.splitn(3, ':');
+    let name = it.next()?.parse().ok()?;
+    let ttl = it.next()?.parse().ok()?;
+    let d = it.next()?;
+    let (k, v) = d.split_at(1);
+    let data = match k {
+        "A" => RD::A(v.parse().ok()?),
+        "Q" => RD::Q(v.parse().ok()?),
+        "N" => RD::N(v.parse().ok()?),
+        "C" => RD::C(v.parse().ok()?),
+        "S" => RD::S(v.parse().ok()?),
+        "T" => RD::T(v.parse().ok()?),
+        _ => return None,
+    };
+    Some(Rec { name, ttl, data })
+}
+
+fn rec_tok(r: &Rec) -> String {
+    let d = match &r.data {
+        RD::A(x) => format!("A{x}"),
+        RD::Q(x) => format!("Q{x}"),
+        RD::N(x) => format!("N{x}"),
+        RD::C(x) => format!("C{x}"),
+        RD::S(x) => format!("S{x}"),
+        RD::T(x) => format!("T{x}"),
+    };
+    format!("{}:{}:{}", r.name, r.ttl, d)
+}
+
+fn recs_tok(rs: &[Rec]) -> String {
+    if rs.is_empty() { "-".into() } else { rs.iter().map(rec_tok).collect::<Vec<_>>().join("+") }
+}
+
+fn parse_resp(t: &str) -> Option<Resp> {
+    let p: Vec<&str> = t.split('/').collect();
+    if p.len() != 5 {
+        return None;
+    }
+    Some(Resp {
+        rcode: p[0].parse().ok()?,
+        aa: p[1] == "1",
+        ans: parse_list(p[2], '+', parse_rec)?,
+        auth: parse_list(p[3], '+', parse_rec)?,
+        add: parse_list(p[4], '+', parse_rec)?,
+    })
+}
+
+fn resp_tok(r: &Resp) -> String {
+    format!("{}/{}/{}/{}/{}", r.rcode, b(r.aa), recs_tok(&r.ans), recs_tok(&r.auth), recs_tok(&r.add))
+}
+
+fn list_tok<T>(xs: &[T], sep: &str, f: impl Fn(&T) -> String) -> String {
+    if xs.is_empty() { "-".into() } else { xs.iter().map(f).collect::<Vec<_>>().join(sep) }
+}
+
+impl Case {
+    pub fn parse(t: &[&str]) -> Option<Case> {
+        if t.len() != 12 || t[0] != "res" {
+            return None;
+        }
+        let names = parse_list(t[8], ',', parse_name)?;
+        let groups = parse_list(t[9], ';', |g| {
+            let (ips, d) = g.split_once('@')?;
+            Some(Group { ips: parse_list(ips, ',', parse_ip)?, default: parse_resp(d)? })
+        })?;
+        let mut table = BTreeMap::new();
+        for e in parse_list(t[10], ';', |e| {
+            let (k, r) = e.split_once('=')?;
+            let k: Vec<&str> = k.split(',').collect();
+            if k.len() != 3 {
+                return None;
+            }
+            Some(((k[0].parse().ok()?, k[1].parse().ok()?, k[2].parse().ok()?), parse_resp(r)?))
+        })? {
+            table.insert(e.0, e.1);
+        }
+        let queries = parse_list(t[11], ';', |q| {
+            let (n, ty) = q.split_once(',')?;
+            Some((n.parse().ok()?, ty.parse().ok()?))
+        })?;
+        let c = Case {
+            rl: t[1].parse().ok()?,
+            nl: t[2].parse().ok()?,
+            roots: parse_list(t[3], ',', parse_ip)?,
+            deny_srv: parse_list(t[4], ',', parse_net)?,
+            allow_srv: parse_list(t[5], ',', parse_net)?,
+            deny_ans: parse_list(t[6], ',', parse_net)?,
+            allow_ans: parse_list(t[7], ',', parse_net)?,
+            names,
+            groups,
+            table,
+            queries,
+        };
+        // indices in range
+        let nn = c.names.len();
+        let ok_rec = |r: &Rec| {
+            r.name < nn
+                && match r.data {
+                    RD::N(x) | RD::C(x) => x < nn,
+                    _ => true,
+                }
+        };
+        let ok_resp = |r: &Resp| r.all().all(ok_rec);
+        if !c.groups.iter().all(|g| ok_resp(&g.default)) {
+            return None;
+        }
+        if !c.table.iter().all(|((g, n, _), r)| *g < c.groups.len() && *n < nn && ok_resp(r)) {
+            return None;
+        }
+        if !c.queries.iter().all(|(n, _)| *n < nn) || c.queries.is_empty() || c.roots.is_empty() {
+            return None;
+        }
+        Some(c)
+    }
+
+    pub fn line(&self) -> String {
+        format!(
+            "res {} {} {} {} {} {} {} {} {} {} {}",
+            self.rl,
+            self.nl,
+            list_tok(&self.roots, ",", ip_tok),
+            list_tok(&self.deny_srv, ",", net_tok),
+            list_tok(&self.allow_srv, ",", net_tok),
+            list_tok(&self.deny_ans, ",", net_tok),
+            list_tok(&self.allow_ans, ",", net_tok),
+            list_tok(&self.names, ",", name_tok),
+            list_tok(&self.groups, ";", |g| format!("{}@{}", list_tok(&g.ips, ",", ip_tok), resp_tok(&g.default))),
+            list_tok(&self.table.iter().collect::<Vec<_>>(), ";", |((g, n, t), r)| format!("{g},{n},{t}={}", resp_tok(r))),
+            list_tok(&self.queries, ";", |(n, t)| format!("{n},{t}")),
+        )
+    }
+
+    fn group_of(&self, ip: &IpAddr) -> Option<usize> {
+        self.groups.iter().position(|g| g.ips.contains(ip))
+    }
+
+    fn name_idx(&self, n: &Name) -> Option<usize> {
+        // exact (case-sensitive) match first, then case-insensitive
+        self.names.iter().position(|x| x.eq_case(n)).or_else(|| self.names.iter().position(|x| x == n))
+    }
+
+    /// ground truth: what group `g` answers to `(name, qtype)`
+    fn respond(&self, g: usize, q: &Query) -> &Resp {
+        match self.name_idx(&q.name) {
+            Some(n) => self.table.get(&(g, n, u16::from(q.query_type))).unwrap_or(&self.groups[g].default),
+            None => &self.groups[g].default,
+        }
+    }
+
+    fn record(&self, r: &Rec) -> Record {
+        let name = self.names[r.name].clone();
+        let data = match &r.data {
+            RD::A(x) => RData::A(A(Ipv4Addr::from(*x))),
+            RD::Q(x) => RData::AAAA(AAAA(Ipv6Addr::from(*x))),
+            RD::N(x) => RData::NS(NS(self.names[*x].clone())),
+            RD::C(x) => RData::CNAME(CNAME(self.names[*x].clone())),
+            RD::S(m) => RData::SOA(SOA::new(name.clone(), name.clone(), 1, 1, 1, 1, *m)),
+            RD::T(t) => RData::TXT(TXT::new(vec![t.to_string()])),
+        };
+        Record::from_rdata(name, r.ttl, data)
+    }
+
+    fn message(&self, r: &Resp, id: u16, q: &Query) -> Message {
+        let mut m = Message::response(id, OpCode::Query);
+        m.add_query(q.clone());
+        m.metadata.response_code = ResponseCode::from(0, r.rcode as u8);
+        m.metadata.authoritative = r.aa;
+        for x in &r.ans {
+            m.add_answer(self.record(x));
+        }
+        for x in &r.auth {
+            m.add_authority(self.record(x));
+        }
+        for x in &r.add {
+            m.add_additional(self.record(x));
+        }
+        m
+    }
+}
+
+/// canonical text of a record as seen in the implementation's output (no TTL)
+fn canon_record(r: &Record) -> String {
+    let d = match &r.data {
+        RData::A(a) => format!("A{}", u32::from(a.0)),
+        RData::AAAA(a) => format!("Q{}", u128::from(a.0)),
+        RData::NS(n) => format!("N{}", name_tok(&n.0)),
+        RData::CNAME(n) => format!("C{}", name_tok(&n.0)),
+        RData::SOA(s) => format!("S{}", s.minimum),
+        RData::TXT(t) => format!(
+            "T{}",
+            t.txt_data.first().map(|s| String::from_utf8_lossy(s).to_string()).unwrap_or_default()
+        ),
+        other => format!("?{}", u16::from(other.record_type())),
+    };
+    format!("{}/{}", name_tok(&r.name), d)
+}
+
+fn canon_rec(c: &Case, r: &Rec) -> String {
+    let d = match &r.data {
+        RD::A(x) => format!("A{x}"),
+        RD::Q(x) => format!("Q{x}"),
+        RD::N(x) => format!("N{}", name_tok(&c.names[*x])),
+        RD::C(x) => format!("C{}", name_tok(&c.names[*x])),
+        RD::S(x) => format!("S{x}"),
+        RD::T(x) => format!("T{x}"),
+    };
+    format!("{}/{}", name_tok(&c.names[r.name]), d)
+}
+
+// ------------------------------------------------------------------------------------------ mock network
+
+#[derive(Clone, Debug, PartialEq, Eq, PartialOrd, Ord)]
+enum Event {
+    /// a query received by a live server
+    Send(IpAddr, Name, u16),
+    /// a connection attempt to an address where nothing listens
+    Dead(IpAddr),
+}
+
+#[derive(Clone)]
+struct MockNet {
+    case: Arc<Case>,
+    log: Arc<Mutex<Vec<Event>>>,
+    rt: TokioRuntimeProvider,
+}
+
+#[derive(Clone)]
+struct MockConn {
+    ip: IpAddr,
+    group: usize,
+    net: MockNet,
+}
+
+impl DnsHandle for MockConn {
+    type Response = Pin<Box<dyn Stream<Item = Result<DnsResponse, NetError>> + Send>>;
+    type Runtime = TokioRuntimeProvider;
+
+    fn send(&self, request: DnsRequest) -> Self::Response {
+        let this = self.clone();
+        Box::pin(once(async move {
+            let Some(q) = request.queries.first().cloned() else {
+                return Err(NetError::from("no query"));
+            };
+            this.net.log.lock().unwrap().push(Event::Send(this.ip, q.name.clone(), u16::from(q.query_type)));
+            let resp = this.net.case.respond(this.group, &q);
+            let msg = this.net.case.message(resp, request.metadata.id, &q);
+            // through the wire format once, as a real transport would
+            let bytes = msg.to_vec().map_err(NetError::from)?;
+            // let other tasks interleave, as a real socket would
+            tokio::task::yield_now().await;
+            DnsResponse::from_buffer(bytes).map_err(NetError::from)
+        }))
+    }
+}
+
+impl ConnectionProvider for MockNet {
+    type Conn = MockConn;
+    type FutureConn = Pin<Box<dyn std::future::Future<Output = Result<MockConn, NetError>> + Send>>;
+    type RuntimeProvider = TokioRuntimeProvider;
+
+    fn new_connection(&self, ip: IpAddr, _config: &ConnectionConfig, _cx: &PoolContext) -> Result<Self::FutureConn, NetError> {
+        let this = self.clone();
+        Ok(Box::pin(async move {
+            match this.case.group_of(&ip) {
+                Some(group) => Ok(MockConn { ip, group, net: this }),
+                None => {
+                    this.log.lock().unwrap().push(Event::Dead(ip));
+                    Err(NetError::from(std::io::Error::new(std::io::ErrorKind::ConnectionRefused, "nothing listens here")))
+                }
+            }
+        }))
+    }
+
+    fn runtime_provider(&self) -> &TokioRuntimeProvider {
+        &self.rt
+    }
+}
+
+// ------------------------------------------------------------------------------------------ running the recursor
+
+#[derive(Debug, Clone)]
+struct QueryOutcome {
+    class: String,
+    rcode: u16,
+    aa: bool,
+    /// returned records (message sections, or the payload of a negative / referral error), canonical
+    records: Vec<(String, Record)>,
+    events: Vec<Event>,
+}
+
+fn classify(res: Result<Message, RecursorError>) -> (String, u16, bool, Vec<(String, Record)>) {
+    match res {
+        Ok(m) => {
+            let mut v = vec![];
+            for r in &m.answers {
+                v.push(("an".to_string(), r.clone()));
+            }
+            for r in &m.authorities {
+                v.push(("au".to_string(), r.clone()));
+            }
+            for r in &m.additionals {
+                v.push(("ad".to_string(), r.clone()));
+            }
+            ("ok".into(), u16::from(m.metadata.response_code), m.metadata.authoritative, v)
+        }
+        Err(RecursorError::Negative(a)) => {
+            let mut v = vec![];
+            if let Some(s) = &a.soa {
+                v.push(("soa".to_string(), Record::from_rdata(s.name.clone(), s.ttl, RData::SOA(s.data.clone()))));
+            }
+            if let Some(au) = &a.authorities {
+                for r in au.iter() {
+                    v.push(("au".to_string(), r.clone()));
+                }
+            }
+            let class = if a.nx_domain { "nx" } else { "nodata" };
+            (class.into(), 0, false, v)
+        }
+        Err(RecursorError::ForwardNS(ns)) => {
+            let mut v = vec![];
+            for f in ns.iter() {
+                v.push(("ns".to_string(), f.ns.clone()));
+                for g in f.glue.iter() {
+                    v.push(("gl".to_string(), g.clone()));
+                }
+            }
+            ("fwd".into(), 0, false, v)
+        }
+        Err(RecursorError::RecursionLimitExceeded { .. }) | Err(RecursorError::MaxRecordLimitExceeded { .. }) => {
+            ("limit".into(), 0, false, vec![])
+        }
+        Err(RecursorError::Net(NetError::Dns(DnsError::ResponseCode(c)))) => ("err".into(), u16::from(c), false, vec![]),
+        Err(_) => ("err".into(), 0, false, vec![]),
+    }
+}
+
+fn run_case(case: Arc<Case>) -> Result<Vec<QueryOutcome>, String> {
+    let rt = tokio::runtime::Builder::new_current_thread().enable_all().build().map_err(|e| e.to_string())?;
+    rt.block_on(async move {
+        let log = Arc::new(Mutex::new(vec![]));
+        let net = MockNet { case: case.clone(), log: log.clone(), rt: TokioRuntimeProvider::default() };
+        let options = RecursorOptions {
+            recursion_limit: case.rl,
+            ns_recursion_limit: case.nl,
+            deny_server: case.deny_srv.clone(),
+            allow_server: case.allow_srv.clone(),
+            deny_answers: case.deny_ans.clone(),
+            allow_answers: case.allow_ans.clone(),
+            ..RecursorOptions::default()
+        };
+        let recursor = Recursor::with_options(&case.roots, options, net).map_err(|e| format!("build: {e}"))?;
+        let mut out = vec![];
+        for (n, t) in &case.queries {
+            let q = Query::new(case.names[*n].clone(), RecordType::from(*t));
+            log.lock().unwrap().clear();
+            let res = tokio::time::timeout(Duration::from_secs(60), recursor.resolve(q, Instant::now(), false)).await;
+            let events = log.lock().unwrap().clone();
+            let Ok(res) = res else {
+                return Err("hang".to_string());
+            };
+            let (class, rcode, aa, records) = classify(res);
+            out.push(QueryOutcome { class, rcode, aa, records, events });
+        }
+        Ok(out)
+    })
+}
+
+/// Runs the case on its own thread with a watchdog: a blocked (non-yielding) resolution is a hang.
+fn run_with_watchdog(case: Arc<Case>) -> Result<Vec<QueryOutcome>, String> {
+    let (tx, rx) = std::sync::mpsc::channel();
+    std::thread::Builder::new()
+        .stack_size(32 << 20)
+        .spawn(move || {
+            let r = catch(|| run_case(case));
+            let _ = tx.send(match r {
+                Ok(r) => r,
+                Err(p) => Err(format!("panic {p}")),
+            });
+        })
+        .map_err(|e| e.to_string())?;
+    match rx.recv_timeout(Duration::from_secs(120)) {
+        Ok(r) => r,
+        Err(_) => Err("hang".into()),
+    }
+}
+
+// ------------------------------------------------------------------------------------------ oracle (ground truth, model-independent)
+
+fn is_subzone(parent: &Name, child: &Name) -> bool {
+    // independent statement of the bailiwick rule: same qualification, parent's labels are a suffix of child's
+    if parent.is_fqdn() != child.is_fqdn() {
+        return false;
+    }
+    let p: Vec<Vec<u8>> = parent.iter().map(|l| l.to_ascii_lowercase()).collect();
+    let c: Vec<Vec<u8>> = child.iter().map(|l| l.to_ascii_lowercase()).collect();
+    p.len() <= c.len() && c[c.len() - p.len()..] == p[..]
+}
+
+fn net_contains(nets: &[IpNet], ip: &IpAddr) -> bool {
+    nets.iter().any(|n| n.contains(ip))
+}
+
+fn denied(deny: &[IpNet], allow: &[IpNet], ip: &IpAddr) -> bool {
+    net_contains(deny, ip) && !net_contains(allow, ip)
+}
+
+fn rec_ip(r: &Rec) -> Option<IpAddr> {
+    match r.data {
+        RD::A(x) => Some(IpAddr::V4(Ipv4Addr::from(x))),
+        RD::Q(x) => Some(IpAddr::V6(Ipv6Addr::from(x))),
+        _ => None,
+    }
+}
+
+struct Truth {
+    /// zones legitimately delegated to each address (least fixpoint of bailiwick-respecting referrals from the roots)
+    delegated: BTreeMap<IpAddr, BTreeSet<usize>>,
+    strict: bool,
+}
+
+impl Truth {
+    /// every (group, query key, response) the simulated internet can produce
+    fn responses(c: &Case) -> Vec<(usize, Option<(usize, u16)>, &Resp)> {
+        let mut v = vec![];
+        for (g, grp) in c.groups.iter().enumerate() {
+            v.push((g, None, &grp.default));
+        }
+        for ((g, n, t), r) in &c.table {
+            v.push((*g, Some((*n, *t)), r));
+        }
+        v
+    }
+
+    fn zones_of_group(&self, c: &Case, g: usize) -> BTreeSet<usize> {
+        let mut s = BTreeSet::new();
+        for ip in &c.groups[g].ips {
+            if let Some(z) = self.delegated.get(ip) {
+                s.extend(z.iter().copied());
+            }
+        }
+        s
+    }
+
+    fn in_some_zone(&self, c: &Case, g: usize, owner: usize) -> bool {
+        self.zones_of_group(c, g).iter().any(|z| is_subzone(&c.names[*z], &c.names[owner]))
+    }
+
+    /// addresses a name-server name `t` may legitimately be given: address records owned by `t`, or any
+    /// answer to an address query for `t`, said by a server inside a zone delegated to it.
+    /// `strict = false` additionally admits what `append_ips_from_lookup` admits (answers to an address
+    /// query for `t` by a server delegated a zone enclosing `t`, whatever the owner of the record).
+    fn legit_addrs(&self, c: &Case, t: usize) -> BTreeSet<IpAddr> {
+        let mut s = BTreeSet::new();
+        for (g, key, r) in Self::responses(c) {
+            let to_t = matches!(key, Some((n, ty)) if c.names[n] == c.names[t] && (ty == 1 || ty == 28));
+            for (sec, rec) in r.ans.iter().map(|x| (0, x)).chain(r.auth.iter().map(|x| (1, x))).chain(r.add.iter().map(|x| (2, x))) {
+                let Some(ip) = rec_ip(rec) else { continue };
+                if !self.strict && to_t && sec == 0 && self.in_some_zone(c, g, t) {
+                    s.insert(ip);
+                }
+                if !self.in_some_zone(c, g, rec.name) {
+                    continue;
+                }
+                if c.names[rec.name] == c.names[t] || (to_t && sec == 0) {
+                    s.insert(ip);
+                }
+            }
+        }
+        s
+    }
+
+    fn compute(c: &Case, strict: bool) -> Truth {
+        let root = c.names.iter().position(|n| n.is_root());
+        let mut t = Truth { delegated: BTreeMap::new(), strict };
+        let Some(root) = root else { return t };
+        for ip in &c.roots {
+            t.delegated.entry(*ip).or_default().insert(root);
+        }
+        loop {
+            let mut add: Vec<(IpAddr, usize)> = vec![];
+            for (g, key, r) in Self::responses(c) {
+                let zones = t.zones_of_group(c, g);
+                for z in &zones {
+                    for rec in r.all() {
+                        let RD::N(target) = rec.data else { continue };
+                        if !is_subzone(&c.names[*z], &c.names[rec.name]) {
+                            continue;
+                        }
+                        let mut grants = vec![rec.name];
+                        if let Some((qn, 2)) = key {
+                            if is_subzone(&c.names[*z], &c.names[qn]) {
+                                grants.push(qn);
+                            }
+                        }
+                        for ip in t.legit_addrs(c, target) {
+                            if denied(&c.deny_srv, &c.allow_srv, &ip) {
+                                continue;
+                            }
+                            for w in &grants {
+                                if !t.delegated.get(&ip).map_or(false, |s| s.contains(w)) {
+                                    add.push((ip, *w));
+                                }
+                            }
+                        }
+                    }
+                }
+            }
+            if add.is_empty() {
+                break;
+            }
+            for (ip, w) in add {
+                t.delegated.entry(ip).or_default().insert(w);
+            }
+        }
+        t
+    }
+
+    /// is `(owner, data)` a record some server said while in the bailiwick of a zone delegated to it?
+    fn attributable(&self, c: &Case, canon: &str) -> bool {
+        for (g, _, r) in Self::responses(c) {
+            for rec in r.all() {
+                if canon_rec(c, rec) == canon && self.in_some_zone(c, g, rec.name) {
+                    return true;
+                }
+            }
+        }
+        false
+    }
+}
+
+/// Every pool the recursor can form *while it respects the bailiwick rule* consists of addresses of a single
+/// server group (then the pool's random server order cannot influence the canonical summary).  Computed from
+/// the ground truth with the lenient closure (which also admits what `append_ips_from_lookup` admits).
+fn homogeneous(c: &Case) -> bool {
+    let key_of = |ip: &IpAddr| -> (u8, usize, IpAddr) {
+        match c.group_of(ip) {
+            Some(g) => (0, g, IpAddr::V4(Ipv4Addr::UNSPECIFIED)),
+            None => (1, 0, *ip),
+        }
+    };
+    let rootk: BTreeSet<_> = c.roots.iter().map(key_of).collect();
+    if rootk.len() > 1 {
+        return false;
+    }
+    let lenient = Truth::compute(c, false);
+    for (g, _, r) in Truth::responses(c) {
+        let mut pool = BTreeSet::new();
+        for rec in r.all() {
+            if let RD::N(t) = rec.data {
+                if !lenient.in_some_zone(c, g, rec.name) {
+                    continue;
+                }
+                for ip in lenient.legit_addrs(c, t) {
+                    if !denied(&c.deny_srv, &c.allow_srv, &ip) {
+                        pool.insert(key_of(&ip));
+                    }
+                }
+            }
+        }
+        // unreachable addresses: a pool may consist of several of them (all are tried), but not mixed with live ones
+        let live = pool.iter().filter(|k| k.0 == 0).count();
+        let dead = pool.iter().filter(|k| k.0 == 1).count();
+        if live > 1 || (live == 1 && dead > 0) {
+            if std::env::var_os("C19_DEBUG").is_some() {
+                eprintln!("heterogeneous pool {pool:?} from {}", resp_tok(r));
+            }
+            return false;
+        }
+    }
+    true
+}
+
+/// Closed-form bound on the number of pool-level lookups of one resolution, proved in
+/// `Proofs/C19.lean` (`queries_bounded`):  `B(L, N) = (MAX_CNAME_LOOKUPS + 2) * (1 + L * (1 + 2 N))^(L + 1)`
+/// with `L = ns_recursion_limit`, `N` = NS records per response; saturating.
+pub fn lookup_bound(nl: u32, ns: u128) -> u128 {
+    let base = 1u128.saturating_add((nl as u128).saturating_mul(1 + 2 * ns));
+    let mut p = 1u128;
+    for _ in 0..=nl {
+        p = p.saturating_mul(base);
+    }
+    66u128.saturating_mul(p)
+}
+
+/// `(N, R)`: most NS records / most records in any response the simulated internet can give
+fn case_params(c: &Case) -> (u128, u128) {
+    let mut ns = 0usize;
+    let mut recs = 0usize;
+    for (_, _, r) in Truth::responses(c) {
+        ns = ns.max(r.all().filter(|x| matches!(x.data, RD::N(_))).count());
+        recs = recs.max(r.all().count());
+    }
+    (ns as u128, recs as u128)
+}
+
+/// `Pmax` of `sends_bounded`: entries of a pool = root hints, or what one NS response can yield
+pub fn pool_bound(roots: u128, n: u128, r: u128) -> u128 {
+    roots
+        .saturating_add(n.saturating_mul(r.saturating_add(2u128.saturating_mul(r).saturating_mul(n))))
+        .saturating_add(2u128.saturating_mul(r).saturating_mul(n))
+}
+
+// ------------------------------------------------------------------------------------------ exec
+
+fn fmt_outcome(c: &Case, o: &QueryOutcome) -> String {
+    let mut recs: Vec<String> = o.records.iter().map(|(s, r)| format!("{s}:{}", canon_record(r))).collect();
+    recs.sort();
+    recs.dedup();
+    let mut sends = BTreeSet::new();
+    let mut dead = BTreeSet::new();
+    for e in &o.events {
+        match e {
+            Event::Send(ip, n, t) => {
+                let g = c.group_of(ip).map(|g| g.to_string()).unwrap_or("?".into());
+                sends.insert(format!("{g}.{}.{t}", name_tok(n)));
+            }
+            Event::Dead(ip) => {
+                dead.insert(ip_tok(ip));
+            }
+        }
+    }
+    format!(
+        "{} {} {} [{}] T={} X={}",
+        o.class,
+        o.rcode,
+        b(o.aa),
+        recs.join(","),
+        list_tok(&sends.into_iter().collect::<Vec<_>>(), ",", |s| s.clone()),
+        list_tok(&dead.into_iter().collect::<Vec<_>>(), ",", |s| s.clone()),
+    )
+}
+
+pub fn exec(line: &str, rec: &mut Recorder) {
+    let t: Vec<&str> = line.split_whitespace().collect();
+    match t.first() {
+        Some(&"res") => exec_res(line, &t, rec),
+        Some(&"stub") => stub::exec(line, &t, rec),
+        _ => rec.stat("skipped.unparsable-case"),
+    }
+}
+
+fn exec_res(line: &str, t: &[&str], rec: &mut Recorder) {
+    let Some(case) = Case::parse(t) else {
+        rec.stat("skipped.unparsable-case");
+        return;
+    };
+    let case = Arc::new(case);
+    // records with TTL 0 make name-server pools expire at once (NameServerPool::ttl_expired); the model has no
+    // pool expiry (checks/C19.json), so such internets are implementation-vs-oracle only
+    let ttl0 = Truth::responses(&case).iter().any(|(_, _, r)| r.all().any(|x| x.ttl == 0 || matches!(x.data, RD::S(0))));
+    let homog = homogeneous(&case) && !ttl0;
+    if ttl0 {
+        rec.stat("ttl-zero-records(impl-vs-oracle only)");
+    }
+    let res = run_with_watchdog(case.clone());
+    let outs = match res {
+        Ok(o) => o,
+        Err(e) => {
+            let idx = rec.case(line.to_string(), e.clone());
+            rec.fail(idx, format!("resolution did not end with an answer or an error: {e}"), "");
+            return;
+        }
+    };
+    let out_line = outs.iter().map(|o| fmt_outcome(&case, o)).collect::<Vec<_>>().join(" | ");
+    if std::env::var_os("C19_DEBUG").is_some() {
+        eprintln!("homog={homog} {out_line}");
+    }
+    let idx = if homog {
+        rec.case(line.to_string(), out_line)
+    } else {
+        rec.impl_only += 1;
+        if !ttl0 {
+            rec.stat("pools.heterogeneous(impl-vs-oracle only)");
+        }
+        // keep the observed summary in the stats sample but give the model no side to compare
+        rec.case(line.to_string(), "~".to_string())
+    };
+    rec.stat("op.res");
+    rec.stat(&format!("queries.{}", case.queries.len()));
+    rec.stat(&format!("limits.nl{}", if case.nl < 4 { "<4" } else if case.nl < 12 { "<12" } else { ">=12" }));
+
+    // ---- the property's oracle, from the ground truth only
+    let truth = Truth::compute(&case, true);
+    // `sends_bounded` (Proofs/C19.lean): sends <= Pmax(roots, N, R) * B(ns_recursion_limit, N)
+    let (ns, recs) = case_params(&case);
+    let bound = lookup_bound(case.nl as u32, ns).saturating_mul(pool_bound(case.roots.len() as u128, ns, recs));
+    let mut any_send = false;
+    // addresses contacted although nobody legitimately made them name servers, through the
+    // foreign-owner shape of the known finding (consequences of the same root cause get the same class)
+    let mut flagged: BTreeSet<IpAddr> = BTreeSet::new();
+    for (k, o) in outs.iter().enumerate() {
+        rec.stat(&format!("answer.{}", o.class));
+        // (1) contacted addresses
+        let mut n_sends: u128 = 0;
+        for e in &o.events {
+            let ip = match e {
+                Event::Send(ip, _, _) => {
+                    n_sends += 1;
+                    any_send = true;
+                    ip
+                }
+                Event::Dead(ip) => ip,
+            };
+            let is_root = case.roots.contains(ip);
+            if !is_root && denied(&case.deny_srv, &case.allow_srv, ip) {
+                rec.fail(idx, format!("query {k}: contacted {} which the name-server filter denies", ip_tok(ip)), "");
+            }
+            if is_root {
+                continue;
+            }
+            let ok = match e {
+                // a query for `qn` may only go to a server that was delegated a zone enclosing `qn`
+                Event::Send(_, qn, _) => truth
+                    .delegated
+                    .get(ip)
+                    .map_or(false, |zs| zs.iter().any(|z| is_subzone(&case.names[*z], qn))),
+                Event::Dead(_) => truth.delegated.contains_key(ip),
+            };
+            if !ok {
+                let class = class_ns_addr(&case, ip);
+                if class == CLASS_NSADDR {
+                    flagged.insert(*ip);
+                }
+                rec.fail(
+                    idx,
+                    format!(
+                        "query {k}: contacted {} ({}) although no bailiwick-respecting delegation chain from the root hints makes it a name server for that name",
+                        ip_tok(ip),
+                        match e {
+                            Event::Send(_, qn, t) => format!("{} type {t}", name_tok(qn)),
+                            Event::Dead(_) => "unreachable".into(),
+                        }
+                    ),
+                    class,
+                );
+            }
+        }
+        // (2) returned records
+        for (sec, r) in &o.records {
+            let canon = canon_record(r);
+            if !truth.attributable(&case, &canon) {
+                let said_by_flagged = Truth::responses(&case).iter().any(|(g, _, resp)| {
+                    case.groups[*g].ips.iter().any(|ip| flagged.contains(ip)) && resp.all().any(|x| canon_rec(&case, x) == canon)
+                });
+                // (error payloads are filtered since fix 030930c: no known class for them any more)
+                let class = if said_by_flagged { CLASS_NSADDR } else { "" };
+                rec.fail(
+                    idx,
+                    format!("query {k}: returned record {sec}:{canon} whose owner is outside every zone delegated to a server that said it ({})", o.class),
+                    class,
+                );
+            }
+            if let Some(ip) = r.data.ip_addr() {
+                if denied(&case.deny_ans, &case.allow_ans, &ip) {
+                    // negative outcomes skip the pool's answer filter (NameServerPool::send filters Ok responses only)
+                    let class = if o.class != "ok" { CLASS_NEG_ANS } else { "" };
+                    rec.fail(idx, format!("query {k}: returned address {} which the answer filter denies ({})", ip_tok(&ip), o.class), class);
+                }
+            }
+        }
+        // (3) bounded work
+        if n_sends > bound {
+            rec.fail(idx, format!("query {k}: {n_sends} upstream queries > proved bound {bound}"), "");
+        }
+        rec.stat(&format!("sends.{}", match n_sends { 0 => "0", 1..=3 => "1-3", 4..=9 => "4-9", 10..=29 => "10-29", _ => "30+" }));
+    }
+    // which paths of the recursor the case went through (from the trace only)
+    let ns_targets: BTreeSet<usize> = Truth::responses(&case)
+        .iter()
+        .flat_map(|(_, _, r)| r.all().filter_map(|x| if let RD::N(t) = x.data { Some(t) } else { None }).collect::<Vec<_>>())
+        .collect();
+    for (k, o) in outs.iter().enumerate() {
+        let (qn, qt) = case.queries[k];
+        let glueless = o.events.iter().any(|e| match e {
+            Event::Send(_, n, t) => (*t == 1 || *t == 28) && !(case.names[qn] == *n && qt == *t) && ns_targets.iter().any(|x| case.names[*x] == *n),
+            _ => false,
+        });
+        if glueless {
+            rec.stat("path.glueless-ns-address-lookup");
+        }
+        let distinct_names: BTreeSet<String> = o
+            .events
+            .iter()
+            .filter_map(|e| match e {
+                Event::Send(_, n, t) if *t == qt && qt != 2 => Some(name_tok(n)),
+                _ => None,
+            })
+            .collect();
+        if distinct_names.len() > 1 {
+            rec.stat("path.cname-chase-upstream");
+        }
+        if o.events.is_empty() && k > 0 {
+            rec.stat(if o.class == "ok" { "path.served-from-cache.positive" } else { "path.served-from-cache.negative-or-error" });
+        }
+        if o.events.iter().any(|e| matches!(e, Event::Dead(_))) {
+            rec.stat("path.unreachable-server-tried");
+        }
+        let groups: BTreeSet<usize> = o.events.iter().filter_map(|e| match e { Event::Send(ip, _, _) => case.group_of(ip), _ => None }).collect();
+        rec.stat(&format!("groups-contacted.{}", groups.len().min(6)));
+    }
+    if !case.deny_srv.is_empty() {
+        rec.stat("filters.name-server-filter-set");
+    }
+    if !case.deny_ans.is_empty() {
+        rec.stat("filters.answer-filter-set");
+    }
+    // non-trivial: the recursor had to follow at least one delegation and the internet contains at least one
+    // record that is out of bailiwick for the server saying it, or a cycle / lame delegation made it fail
+    let hostile = Truth::responses(&case).iter().any(|(g, _, r)| r.all().any(|x| !truth.in_some_zone(&case, *g, x.name)));
+    if any_send && (hostile || outs.iter().any(|o| o.class != "ok")) {
+        rec.nontrivial(idx);
+    }
+    if hostile {
+        rec.stat("internet.hostile-records");
+    }
+}
+
+const CLASS_NEG_ANS: &str = "C19.NegativeResponseAnswerFilterSkipped";
+const CLASS_NSADDR: &str = "C19.GluelessNsAddressOwnerUnchecked";
+
+/// Narrow class of the "contacted an address nobody legitimately made a name server" failure: the internet
+/// contains a response to an address query `(T, A|AAAA)` whose *answer section* carries this address under an
+/// owner name other than `T` — the shape `append_ips_from_lookup` accepts (it takes every address in the answer
+/// section of its unfiltered pool lookups, whatever the owner).  Mirrored by `Model.Recursor.foreignOwnerAnswer`.
+fn class_ns_addr(c: &Case, ip: &IpAddr) -> &'static str {
+    for (_, key, r) in Truth::responses(c) {
+        let Some((qn, ty)) = key else { continue };
+        if ty != 1 && ty != 28 {
+            continue;
+        }
+        for rec in &r.ans {
+            if rec_ip(rec).as_ref() == Some(ip) && c.names[rec.name] != c.names[qn] {
+                return CLASS_NSADDR;
+            }
+        }
+    }
+    ""
+}
+
+pub fn run(o: &Opts, rec: &mut Recorder) {
+    rec.rule = "the recursor sent at least one upstream query and the simulated internet contains a record that is out of bailiwick for the server saying it, or the resolution ended in an error (cycle, lame delegation, limit)".into();
+    for l in o.pre_lines.clone() {
+        exec(&l, rec);
+        rec.corpus_cases += 1;
+    }
+    if let Some(dir) = std::env::var_os("C19_DUMP_SCENARIOS") {
+        for (name, c) in gen::scenarios() {
+            let path = std::path::Path::new(&dir).join(format!("{name}.case"));
+            std::fs::write(path, format!("# hand-built adversarial internet: {name}\n{}\n", c.line())).expect("dump");
+        }
+    }
+    let mut r = Rng::new(o.seed);
+    let n = o.n(400, 6000);
+    for i in 0..n {
+        let line = gen::case(&mut r, i);
+        exec(&line, rec);
+    }
+    let n = o.n(100, 2000);
+    for _ in 0..n {
+        let line = stub::gen(&mut r);
+        exec(&line, rec);
+    }
+}
+
+pub mod gen {
+    //! Simulated internets: a small zone tree served honestly (RFC 1034 §4.3.2 answers, referrals with or
+    //! without glue) plus hostile additions; flattened to the `(group, query) → response` table of a case.
+    use super::*;
+
+    #[derive(Clone, Debug)]
+    pub struct Zone {
+        pub name: usize,
+        pub group: usize,
+        /// NS host names
+        pub ns: Vec<usize>,
+        /// does the parent attach address records for the NS hosts to its referral?
+        pub glue: bool,
+        /// authoritative data (NS/SOA at the apex are added by `finish`)
+        pub records: Vec<Rec>,
+    }
+
+    #[derive(Clone, Debug)]
+    pub struct Extra {
+        pub group: usize,
+        /// restrict to one query name / type (None = every non-REFUSED response of the group)
+        pub qname: Option<usize>,
+        pub qtype: Option<u16>,
+        /// 0 answer, 1 authority, 2 additional
+        pub section: u8,
+        pub rec: Rec,
+    }
+
+    #[derive(Clone, Debug, Default)]
+    pub struct World {
+        pub names: Vec<Name>,
+        pub zones: Vec<Zone>,
+        pub group_ips: Vec<Vec<IpAddr>>,
+        /// groups that answer REFUSED / SERVFAIL / an upward referral to everything (lame)
+        pub lame: BTreeMap<usize, u8>,
+        pub extras: Vec<Extra>,
+        pub ttl: u32,
+    }
+
+    pub fn v4(a: u8, b_: u8, c: u8, d: u8) -> IpAddr {
+        IpAddr::V4(Ipv4Addr::new(a, b_, c, d))
+    }
+
+    impl World {
+        pub fn new() -> Self {
+            let mut w = World { ttl: 3600, ..Default::default() };
+            w.intern(".");
+            w
+        }
+        pub fn intern(&mut self, s: &str) -> usize {
+            let n = Name::from_ascii(s).expect("name");
+            self.intern_name(n)
+        }
+        pub fn intern_name(&mut self, n: Name) -> usize {
+            if let Some(i) = self.names.iter().position(|x| x.eq_case(&n)) {
+                return i;
+            }
+            self.names.push(n);
+            self.names.len() - 1
+        }
+        pub fn group(&mut self, ips: Vec<IpAddr>) -> usize {
+            self.group_ips.push(ips);
+            self.group_ips.len() - 1
+        }
+        /// standard addresses of group k: 44.0.k.1, 44.0.k.2 / 2a00::k:1
+        pub fn std_group(&mut self, n_ips: usize) -> usize {
+            let k = self.group_ips.len() as u8;
+            let ips = (0..n_ips).map(|i| v4(44, 0, k, 1 + i as u8)).collect();
+            self.group(ips)
+        }
+        pub fn zone(&mut self, name: &str, group: usize, ns: &[&str], glue: bool) -> usize {
+            let name = self.intern(name);
+            let ns = ns.iter().map(|h| self.intern(h)).collect();
+            self.zones.push(Zone { name, group, ns, glue, records: vec![] });
+            self.zones.len() - 1
+        }
+        pub fn rec(&mut self, owner: &str, data: RD) -> Rec {
+            Rec { name: self.intern(owner), ttl: self.ttl, data }
+        }
+        pub fn a(&mut self, owner: &str, ip: IpAddr) -> Rec {
+            let d = match ip {
+                IpAddr::V4(x) => RD::A(u32::from(x)),
+                IpAddr::V6(x) => RD::Q(u128::from(x)),
+            };
+            self.rec(owner, d)
+        }
+        pub fn cname(&mut self, owner: &str, target: &str) -> Rec {
+            let t = self.intern(target);
+            self.rec(owner, RD::C(t))
+        }
+        pub fn nsrec(&mut self, owner: &str, target: &str) -> Rec {
+            let t = self.intern(target);
+            self.rec(owner, RD::N(t))
+        }
+        /// deepest zone (index) whose name encloses `n`
+        pub fn zone_of(&self, n: usize) -> Option<usize> {
+            let mut best: Option<usize> = None;
+            for (i, z) in self.zones.iter().enumerate() {
+                if is_subzone(&self.names[z.name], &self.names[n]) {
+                    if best.map_or(true, |b| self.names[self.zones[b].name].num_labels() < self.names[z.name].num_labels()) {
+                        best = Some(i);
+                    }
+                }
+            }
+            best
+        }
+        pub fn add(&mut self, zone: usize, r: Rec) {
+            self.zones[zone].records.push(r);
+        }
+        /// put `r` into the deepest zone enclosing its owner
+        pub fn add_auto(&mut self, r: Rec) {
+            if let Some(z) = self.zone_of(r.name) {
+                self.zones[z].records.push(r);
+            }
+        }
+        /// apex NS + SOA, and address records for NS hosts (host i of a zone → address i of the zone's group)
+        pub fn finish(&mut self) {
+            for zi in 0..self.zones.len() {
+                let z = self.zones[zi].clone();
+                let ttl = self.ttl;
+                for h in &z.ns {
+                    self.zones[zi].records.push(Rec { name: z.name, ttl, data: RD::N(*h) });
+                }
+                self.zones[zi].records.push(Rec { name: z.name, ttl, data: RD::S(ttl) });
+                let ips = self.group_ips[z.group].clone();
+                for (i, h) in z.ns.iter().enumerate() {
+                    // each host gets one address; the last host takes the remaining ones
+                    let mine: Vec<IpAddr> = if z.ns.len() == 1 {
+                        ips.clone()
+                    } else if i + 1 == z.ns.len() {
+                        ips.iter().skip(i).cloned().collect()
+                    } else {
+                        ips.iter().skip(i).take(1).cloned().collect()
+                    };
+                    for ip in mine {
+                        let d = match ip {
+                            IpAddr::V4(x) => RD::A(u32::from(x)),
+                            IpAddr::V6(x) => RD::Q(u128::from(x)),
+                        };
+                        let r = Rec { name: *h, ttl, data: d };
+                        if let Some(hz) = self.zone_of(*h) {
+                            if !self.zones[hz].records.contains(&r) {
+                                self.zones[hz].records.push(r);
+                            }
+                        }
+                    }
+                }
+            }
+        }
+
+        fn rtype(d: &RD) -> u16 {
+            match d {
+                RD::A(_) => 1,
+                RD::Q(_) => 28,
+                RD::N(_) => 2,
+                RD::C(_) => 5,
+                RD::S(_) => 6,
+                RD::T(_) => 16,
+            }
+        }
+
+        /// addresses known anywhere in the world for host `h` (used as glue)
+        fn host_addrs(&self, h: usize) -> Vec<Rec> {
+            let mut v = vec![];
+            for z in &self.zones {
+                for r in &z.records {
+                    if self.names[r.name] == self.names[h] && matches!(r.data, RD::A(_) | RD::Q(_)) && !v.contains(r) {
+                        v.push(r.clone());
+                    }
+                }
+            }
+            v
+        }
+
+        /// what an honest server of `group` answers
+        pub fn honest(&self, group: usize, n: usize, t: u16) -> Resp {
+            let refused = Resp { rcode: 5, ..Default::default() };
+            if let Some(kind) = self.lame.get(&group) {
+                return match kind {
+                    0 => refused,
+                    1 => Resp { rcode: 2, ..Default::default() },
+                    _ => {
+                        // upward referral to the root
+                        let root = &self.zones[0];
+                        Resp {
+                            rcode: 0,
+                            aa: false,
+                            ans: vec![],
+                            auth: root.ns.iter().map(|h| Rec { name: root.name, ttl: self.ttl, data: RD::N(*h) }).collect(),
+                            add: vec![],
+                        }
+                    }
+                };
+            }
+            let qn = &self.names[n];
+            // deepest zone served by this group that encloses n
+            let mut best: Option<&Zone> = None;
+            for z in self.zones.iter().filter(|z| z.group == group) {
+                if is_subzone(&self.names[z.name], qn)
+                    && best.map_or(true, |b| self.names[b.name].num_labels() < self.names[z.name].num_labels())
+                {
+                    best = Some(z);
+                }
+            }
+            let Some(z) = best else { return refused };
+            let zname = &self.names[z.name];
+            // shallowest cut below z that encloses n and is not served here
+            let mut cut: Option<&Zone> = None;
+            for c in &self.zones {
+                let cn = &self.names[c.name];
+                if cn != zname && is_subzone(zname, cn) && is_subzone(cn, qn) && c.group != group {
+                    if cut.map_or(true, |b| self.names[b.name].num_labels() > cn.num_labels()) {
+                        cut = Some(c);
+                    }
+                }
+            }
+            let soa = Rec { name: z.name, ttl: self.ttl, data: RD::S(self.ttl) };
+            if let Some(c) = cut {
+                if t == 43 && self.names[c.name] == *qn {
+                    return Resp { rcode: 0, aa: true, ans: vec![], auth: vec![soa], add: vec![] };
+                }
+                let auth: Vec<Rec> = c.ns.iter().map(|h| Rec { name: c.name, ttl: self.ttl, data: RD::N(*h) }).collect();
+                let mut add = vec![];
+                if c.glue {
+                    for h in &c.ns {
+                        add.extend(self.host_addrs(*h));
+                    }
+                }
+                return Resp { rcode: 0, aa: false, ans: vec![], auth, add };
+            }
+            let at = |name: &Name| -> Vec<&Rec> { z.records.iter().filter(|r| self.names[r.name] == *name).collect() };
+            let here = at(qn);
+            let cn: Vec<&Rec> = here.iter().copied().filter(|r| matches!(r.data, RD::C(_))).collect();
+            if !cn.is_empty() && t != 5 && t != 255 {
+                let mut ans: Vec<Rec> = vec![cn[0].clone()];
+                let mut cur = cn[0].clone();
+                for _ in 0..4 {
+                    let RD::C(tn) = cur.data else { break };
+                    let tname = self.names[tn].clone();
+                    if !is_subzone(zname, &tname) {
+                        break;
+                    }
+                    let recs = at(&tname);
+                    let ty: Vec<&Rec> = recs.iter().copied().filter(|r| Self::rtype(&r.data) == t).collect();
+                    if !ty.is_empty() {
+                        ans.extend(ty.into_iter().cloned());
+                        break;
+                    }
+                    match recs.iter().copied().find(|r| matches!(r.data, RD::C(_))) {
+                        Some(next) if !ans.contains(next) => {
+                            ans.push(next.clone());
+                            cur = next.clone();
+                        }
+                        _ => break,
+                    }
+                }
+                return Resp { rcode: 0, aa: true, ans, auth: vec![], add: vec![] };
+            }
+            let ty: Vec<Rec> = here.iter().copied().filter(|r| t == 255 || Self::rtype(&r.data) == t).cloned().collect();
+            if !ty.is_empty() {
+                let mut add = vec![];
+                if t == 2 {
+                    for r in &ty {
+                        if let RD::N(h) = r.data {
+                            for a in z.records.iter().filter(|a| self.names[a.name] == self.names[h] && matches!(a.data, RD::A(_) | RD::Q(_))) {
+                                add.push(a.clone());
+                            }
+                        }
+                    }
+                }
+                return Resp { rcode: 0, aa: true, ans: ty, auth: vec![], add };
+            }
+            let exists = z.records.iter().any(|r| is_subzone(qn, &self.names[r.name]));
+            if exists {
+                Resp { rcode: 0, aa: true, ans: vec![], auth: vec![soa], add: vec![] }
+            } else {
+                Resp { rcode: 3, aa: true, ans: vec![], auth: vec![soa], add: vec![] }
+            }
+        }
+
+        /// flatten to a case
+        pub fn case(&mut self, roots: Vec<IpAddr>, queries: Vec<(usize, u16)>, rl: u8, nl: u8) -> Case {
+            // candidate query names: every suffix of every name
+            let base = self.names.clone();
+            for n in base {
+                let k = n.num_labels() as usize;
+                for i in 0..=k {
+                    let s = n.trim_to(i);
+                    self.intern_name(s);
+                }
+            }
+            let mut types: BTreeSet<u16> = [1u16, 28, 2].into_iter().collect();
+            for (_, t) in &queries {
+                types.insert(*t);
+            }
+            let refused = Resp { rcode: 5, ..Default::default() };
+            let mut table = BTreeMap::new();
+            for g in 0..self.group_ips.len() {
+                for n in 0..self.names.len() {
+                    for t in &types {
+                        let mut r = self.honest(g, n, *t);
+                        if r.rcode == 0 || r.rcode == 3 {
+                            for e in self.extras.iter().filter(|e| e.group == g) {
+                                if e.qname.map_or(true, |q| self.names[q] == self.names[n]) && e.qtype.map_or(true, |q| q == *t) {
+                                    match e.section {
+                                        0 => r.ans.push(e.rec.clone()),
+                                        1 => r.auth.push(e.rec.clone()),
+                                        _ => r.add.push(e.rec.clone()),
+                                    }
+                                }
+                            }
+                        }
+                        if r != refused {
+                            table.insert((g, n, *t), r);
+                        }
+                    }
+                }
+            }
+            Case {
+                rl,
+                nl,
+                roots,
+                deny_srv: vec![],
+                allow_srv: vec![],
+                deny_ans: vec![],
+                allow_ans: vec![],
+                names: self.names.clone(),
+                groups: self.group_ips.iter().map(|ips| Group { ips: ips.clone(), default: refused.clone() }).collect(),
+                table,
+                queries,
+            }
+        }
+    }
+
+    /// root + com (+ net) with in-zone NS hosts and glue; returns (world, root group, com zone idx)
+    pub fn base(two_ips: bool) -> World {
+        let mut w = World::new();
+        let k = if two_ips { 2 } else { 1 };
+        let g0 = w.std_group(k);
+        w.zone(".", g0, &["a.root-servers.net."], true);
+        let g1 = w.std_group(k);
+        w.zone("com.", g1, &["a.gtld.com.", "b.gtld.com."][..k], true);
+        let g2 = w.std_group(1);
+        w.zone("net.", g2, &["a.gtld.net."], true);
+        w
+    }
+
+    pub fn net32(ip: IpAddr) -> IpNet {
+        IpNet::new(ip, if ip.is_ipv4() { 32 } else { 128 }).unwrap()
+    }
+
+    /// the hand-built adversarial internets (classic attacks); also written to corpus/C19/
+    pub fn scenarios() -> Vec<(&'static str, Case)> {
+        let mut out = vec![];
+        let evil = v4(66, 6, 6, 6);
+
+        // 1. Kaminsky-style: the attacker.com servers add `www.victim.com A evil` (additional) and a
+        //    `victim.com NS ns.attacker.com` (authority) to every answer
+        {
+            let mut w = base(true);
+            let gv = w.std_group(2);
+            w.zone("victim.com.", gv, &["ns1.victim.com.", "ns2.victim.com."], true);
+            let ga = w.std_group(2);
+            w.zone("attacker.com.", ga, &["ns1.attacker.com.", "ns2.attacker.com."], true);
+            let r = w.a("www.victim.com.", v4(44, 1, 1, 1));
+            w.add_auto(r);
+            let r = w.a("www.attacker.com.", v4(44, 2, 2, 2));
+            w.add_auto(r);
+            w.finish();
+            let inj = w.a("www.victim.com.", evil);
+            w.extras.push(Extra { group: ga, qname: None, qtype: None, section: 2, rec: inj.clone() });
+            let qa = w.intern("www.attacker.com.");
+            w.extras.push(Extra { group: ga, qname: Some(qa), qtype: Some(1), section: 0, rec: inj });
+            let inj = w.nsrec("victim.com.", "ns1.attacker.com.");
+            w.extras.push(Extra { group: ga, qname: None, qtype: None, section: 1, rec: inj });
+            let q1 = w.intern("www.attacker.com.");
+            let q2 = w.intern("www.victim.com.");
+            let roots = w.group_ips[0].clone();
+            out.push(("kaminsky-additional-injection", w.case(roots, vec![(q1, 1), (q2, 1), (q2, 1)], 24, 24)));
+        }
+        // 2. an example.com server injects a delegation of com. (NS + glue) into its answers
+        {
+            let mut w = base(false);
+            let ge = w.std_group(1);
+            w.zone("example.com.", ge, &["ns.example.com."], true);
+            let go = w.std_group(1);
+            w.zone("other.com.", go, &["ns.other.com."], true);
+            let r = w.a("www.example.com.", v4(44, 1, 1, 1));
+            w.add_auto(r);
+            let r = w.a("www.other.com.", v4(44, 1, 1, 2));
+            w.add_auto(r);
+            w.finish();
+            let inj = w.nsrec("com.", "ns.example.com.");
+            w.extras.push(Extra { group: ge, qname: None, qtype: None, section: 1, rec: inj });
+            let inj = w.a("a.gtld.com.", w.group_ips[ge][0]);
+            w.extras.push(Extra { group: ge, qname: None, qtype: None, section: 2, rec: inj });
+            let inj = w.a("www.other.com.", evil);
+            w.extras.push(Extra { group: ge, qname: None, qtype: None, section: 2, rec: inj });
+            let q1 = w.intern("www.example.com.");
+            let q2 = w.intern("www.other.com.");
+            let q3 = w.intern("com.");
+            let roots = w.group_ips[0].clone();
+            out.push(("ns-for-com-injected-by-example-com", w.case(roots, vec![(q1, 1), (q2, 1), (q3, 2)], 24, 24)));
+        }
+        // 3. sibling glue: a.example.com NS ns.b.example.com, glue supplied by the example.com servers
+        {
+            let mut w = base(false);
+            let ge = w.std_group(1);
+            w.zone("example.com.", ge, &["ns.example.com."], true);
+            let gb = w.std_group(2);
+            w.zone("b.example.com.", gb, &["ns.b.example.com."], true);
+            w.zone("a.example.com.", gb, &["ns.b.example.com."], true);
+            let r = w.a("www.a.example.com.", v4(44, 1, 1, 1));
+            w.add_auto(r);
+            w.finish();
+            let q1 = w.intern("www.a.example.com.");
+            let roots = w.group_ips[0].clone();
+            out.push(("sibling-glue", w.case(roots, vec![(q1, 1), (q1, 1)], 24, 24)));
+        }
+        // 4. glueless cycle: a.example.com NS ns.b.example.com / b.example.com NS ns.a.example.com, no glue
+        {
+            let mut w = base(false);
+            let ge = w.std_group(1);
+            w.zone("example.com.", ge, &["ns.example.com."], true);
+            let ga = w.std_group(1);
+            w.zone("a.example.com.", ga, &["ns.b.example.com."], false);
+            let gb = w.std_group(1);
+            w.zone("b.example.com.", gb, &["ns.a.example.com."], false);
+            let r = w.a("www.a.example.com.", v4(44, 1, 1, 1));
+            w.add_auto(r);
+            w.finish();
+            let q1 = w.intern("www.a.example.com.");
+            let q2 = w.intern("www.b.example.com.");
+            let roots = w.group_ips[0].clone();
+            for (nl, tag) in [(24u8, "glueless-cycle"), (6, "glueless-cycle-nl6")] {
+                out.push((tag, w.clone().case(roots.clone(), vec![(q1, 1), (q2, 1)], 24, nl)));
+            }
+        }
+        // 5. self-referential glueless delegation: self.com NS ns.self.com without glue
+        {
+            let mut w = base(false);
+            let gs = w.std_group(1);
+            w.zone("self.com.", gs, &["ns.self.com."], false);
+            let r = w.a("www.self.com.", v4(44, 1, 1, 1));
+            w.add_auto(r);
+            w.finish();
+            let q1 = w.intern("www.self.com.");
+            let roots = w.group_ips[0].clone();
+            out.push(("self-referential-delegation", w.case(roots, vec![(q1, 1)], 24, 24)));
+        }
+        // 6. CNAME loop across two zones
+        {
+            let mut w = base(false);
+            let g1 = w.std_group(1);
+            w.zone("one.com.", g1, &["ns.one.com."], true);
+            let g2 = w.std_group(1);
+            w.zone("two.com.", g2, &["ns.two.com."], true);
+            let r = w.cname("a.one.com.", "b.two.com.");
+            w.add_auto(r);
+            let r = w.cname("b.two.com.", "a.one.com.");
+            w.add_auto(r);
+            w.finish();
+            let q1 = w.intern("a.one.com.");
+            let roots = w.group_ips[0].clone();
+            out.push(("cname-loop", w.clone().case(roots.clone(), vec![(q1, 1), (q1, 28)], 24, 24)));
+            out.push(("cname-loop-rl200", w.case(roots, vec![(q1, 1)], 200, 24)));
+        }
+        // 7. CNAME chain longer than every limit (70 hops alternating between two zones)
+        {
+            let mut w = base(false);
+            let g1 = w.std_group(1);
+            w.zone("one.com.", g1, &["ns.one.com."], true);
+            let g2 = w.std_group(1);
+            w.zone("two.com.", g2, &["ns.two.com."], true);
+            for i in 0..70 {
+                let z = if i % 2 == 0 { "one" } else { "two" };
+                let z2 = if i % 2 == 0 { "two" } else { "one" };
+                let r = w.cname(&format!("c{i}.{z}.com."), &format!("c{}.{z2}.com.", i + 1));
+                w.add_auto(r);
+            }
+            let r = w.a("c70.one.com.", v4(44, 1, 1, 1));
+            w.add_auto(r);
+            w.finish();
+            let q1 = w.intern("c0.one.com.");
+            let q2 = w.intern("c60.one.com.");
+            let roots = w.group_ips[0].clone();
+            out.push(("cname-chain-70", w.clone().case(roots.clone(), vec![(q1, 1), (q2, 1)], 24, 24)));
+            out.push(("cname-chain-70-rl255", w.case(roots, vec![(q1, 1)], 255, 24)));
+        }
+        // 8. lame delegations: REFUSED / SERVFAIL / upward referral
+        for kind in 0..3u8 {
+            let mut w = base(false);
+            let gl = w.std_group(2);
+            w.zone("lame.com.", gl, &["ns1.lame.com.", "ns2.lame.com."], true);
+            let r = w.a("www.lame.com.", v4(44, 1, 1, 1));
+            w.add_auto(r);
+            w.finish();
+            w.lame.insert(gl, kind);
+            let q1 = w.intern("www.lame.com.");
+            let roots = w.group_ips[0].clone();
+            out.push((["lame-refused", "lame-servfail", "lame-upward-referral"][kind as usize], w.case(roots, vec![(q1, 1), (q1, 1)], 24, 24)));
+        }
+        // 9. unreachable servers (nothing listens on the glue addresses)
+        {
+            let mut w = base(false);
+            let gd = w.group(vec![]);
+            w.zone("dead.com.", gd, &["ns.dead.com."], true);
+            w.finish();
+            let r = w.a("ns.dead.com.", v4(44, 9, 9, 9));
+            let cz = w.zone_of(r.name).unwrap();
+            w.add(cz, r.clone());
+            let r2 = w.a("ns.dead.com.", v4(44, 9, 9, 10));
+            w.add(cz, r2);
+            let q1 = w.intern("www.dead.com.");
+            let roots = w.group_ips[0].clone();
+            out.push(("unreachable-servers", w.case(roots, vec![(q1, 1)], 24, 24)));
+        }
+        // 10. name-server filter: the glue address is denied
+        {
+            let mut w = base(false);
+            let ge = w.std_group(2);
+            w.zone("example.com.", ge, &["ns1.example.com.", "ns2.example.com."], true);
+            let r = w.a("www.example.com.", v4(44, 1, 1, 1));
+            w.add_auto(r);
+            w.finish();
+            let q1 = w.intern("www.example.com.");
+            let roots = w.group_ips[0].clone();
+            let ips = w.group_ips[ge].clone();
+            let mut c = w.clone().case(roots.clone(), vec![(q1, 1)], 24, 24);
+            c.deny_srv = ips.iter().map(|ip| net32(*ip)).collect();
+            out.push(("server-filter-denies-glue", c));
+            let mut c = w.clone().case(roots.clone(), vec![(q1, 1)], 24, 24);
+            c.deny_srv = vec![IpNet::new(v4(44, 0, 0, 0), 16).unwrap()];
+            c.allow_srv = vec![IpNet::new(v4(44, 0, 0, 0), 22).unwrap()];
+            out.push(("server-filter-deny-with-allow-exception", c));
+            // 11. answer filter
+            let mut c = w.case(roots, vec![(q1, 1)], 24, 24);
+            c.deny_ans = vec![net32(v4(44, 1, 1, 1))];
+            out.push(("answer-filter-denies-address", c));
+        }
+        // 12. glueless out-of-zone NS whose address lookup is answered with a foreign owner name
+        {
+            let mut w = base(false);
+            let gh = w.std_group(1);
+            w.zone("hoster.net.", gh, &["ns.hoster.net."], true);
+            let ge = w.std_group(1);
+            w.zone("example.com.", ge, &["dns.hoster.net."], false);
+            let r = w.a("www.example.com.", v4(44, 1, 1, 1));
+            w.add_auto(r);
+            w.finish();
+            let q1 = w.intern("www.example.com.");
+            let roots = w.group_ips[0].clone();
+            out.push(("glueless-out-of-zone-ns", w.clone().case(roots.clone(), vec![(q1, 1), (q1, 1)], 24, 24)));
+            // hostile hoster: answers the address query for dns.hoster.net with `elsewhere.org A <attacker server>`
+            let mut w2 = base(false);
+            let gh = w2.std_group(1);
+            w2.zone("hoster.net.", gh, &["ns.hoster.net."], true);
+            let ge = w2.std_group(1);
+            w2.zone("example.com.", ge, &["dns.hoster.net."], false);
+            let r = w2.a("www.example.com.", v4(44, 1, 1, 1));
+            w2.add_auto(r);
+            let gx = w2.std_group(1);
+            w2.zone("evil.net.", gx, &["ns.evil.net."], true);
+            let xip = w2.group_ips[gx][0];
+            w2.finish();
+            let dn = w2.intern("dns.hoster.net.");
+            let inj = w2.a("elsewhere.org.", xip);
+            w2.extras.push(Extra { group: gh, qname: Some(dn), qtype: Some(1), section: 0, rec: inj });
+            let q1 = w2.intern("www.example.com.");
+            let mut c = w2.case(roots, vec![(q1, 1)], 24, 24);
+            // remove the honest address of dns.hoster.net so that only the foreign-owner record remains
+            for ((g, n, t), r) in c.table.iter_mut() {
+                if *g == gh && c.names[*n] == c.names[dn] && *t == 1 {
+                    r.ans.retain(|x| c.names[x.name] != c.names[dn]);
+                }
+            }
+            // the attacker's server answers for www.example.com
+            let evil_rec = Rec { name: q1, ttl: 3600, data: RD::A(u32::from(Ipv4Addr::new(66, 6, 6, 6))) };
+            for t in [1u16, 2] {
+                c.table.insert((gx, q1, t), Resp { rcode: 0, aa: true, ans: if t == 1 { vec![evil_rec.clone()] } else { vec![] }, auth: vec![], add: vec![] });
+            }
+            out.push(("glueless-ns-address-with-foreign-owner", c));
+        }
+        // 12c. the address of a glueless NS host is already in the response cache (asked for by an earlier query)
+        {
+            let mut w = base(false);
+            let gh = w.std_group(1);
+            w.zone("hoster.net.", gh, &["ns.hoster.net."], true);
+            let ge = w.std_group(1);
+            w.zone("example.com.", ge, &["dns.hoster.net."], false);
+            let r = w.a("www.example.com.", v4(44, 1, 1, 1));
+            w.add_auto(r);
+            w.finish();
+            let q0 = w.intern("dns.hoster.net.");
+            let q1 = w.intern("www.example.com.");
+            let roots = w.group_ips[0].clone();
+            out.push(("cached-address-used-as-glue", w.case(roots, vec![(q0, 1), (q1, 1)], 24, 24)));
+        }
+        // 12d. wildcard owner name, mixed-case query, DS query (parent side), ANY and CNAME queries
+        {
+            let mut w = base(false);
+            let ge = w.std_group(2);
+            w.zone("example.com.", ge, &["ns1.example.com.", "ns2.example.com."], true);
+            let gs = w.std_group(1);
+            w.zone("sub.example.com.", gs, &["ns.sub.example.com."], true);
+            let r = w.a("*.example.com.", v4(44, 1, 1, 9));
+            w.add_auto(r);
+            let r = w.a("www.example.com.", v4(44, 1, 1, 1));
+            w.add_auto(r);
+            let r = w.cname("alias.example.com.", "www.sub.example.com.");
+            w.add_auto(r);
+            let r = w.a("www.sub.example.com.", v4(44, 1, 1, 2));
+            w.add_auto(r);
+            w.finish();
+            let qw = w.intern("*.example.com.");
+            let qu = w.intern_name(Name::from_ascii("WWW.Example.COM.").unwrap());
+            let qs = w.intern("sub.example.com.");
+            let qa = w.intern("alias.example.com.");
+            let roots = w.group_ips[0].clone();
+            out.push(("wildcard-mixed-case-ds-any-cname", w.case(roots, vec![(qw, 1), (qu, 1), (qs, 43), (qa, 255), (qa, 5), (qa, 1), (qa, 1)], 24, 24)));
+        }
+        // 12e. records with TTL 0 (nothing is kept in the caches)
+        {
+            let mut w = base(false);
+            w.ttl = 0;
+            let ge = w.std_group(1);
+            w.zone("zero.com.", ge, &["ns.zero.com."], true);
+            let r = w.a("www.zero.com.", v4(44, 1, 1, 1));
+            w.add_auto(r);
+            w.finish();
+            let q1 = w.intern("www.zero.com.");
+            let roots = w.group_ips[0].clone();
+            out.push(("ttl-zero", w.case(roots, vec![(q1, 1), (q1, 1)], 24, 24)));
+        }
+        // 13b. negative answer carrying an in-bailiwick address the answer filter denies
+        {
+            let mut w = base(false);
+            let ga = w.std_group(1);
+            w.zone("attacker.com.", ga, &["ns.attacker.com."], true);
+            w.finish();
+            let inj = w.a("x.attacker.com.", evil);
+            let q2 = w.intern("nothing.attacker.com.");
+            w.extras.push(Extra { group: ga, qname: Some(q2), qtype: None, section: 1, rec: inj });
+            let roots = w.group_ips[0].clone();
+            let mut c = w.case(roots, vec![(q2, 16), (q2, 16)], 24, 24);
+            c.deny_ans = vec![net32(evil)];
+            out.push(("negative-answer-with-denied-address", c));
+        }
+        // 13. negative answer carrying out-of-bailiwick authority data
+        {
+            let mut w = base(false);
+            let ga = w.std_group(1);
+            w.zone("attacker.com.", ga, &["ns.attacker.com."], true);
+            w.finish();
+            let inj = w.nsrec("com.", "ns.attacker.com.");
+            w.extras.push(Extra { group: ga, qname: None, qtype: Some(28), section: 1, rec: inj });
+            let inj = w.rec("com.", RD::S(3600));
+            w.extras.push(Extra { group: ga, qname: None, qtype: Some(16), section: 1, rec: inj });
+            let q1 = w.intern("ns.attacker.com.");
+            let q2 = w.intern("nothing.attacker.com.");
+            let roots = w.group_ips[0].clone();
+            out.push(("negative-answer-with-foreign-authority", w.case(roots, vec![(q1, 28), (q1, 28), (q2, 16), (q2, 16)], 24, 24)));
+        }
+        out
+    }
+
+    pub fn case(r: &mut Rng, i: usize) -> String {
+        // the hand-built scenarios live in corpus/C19/*.case (written by C19_DUMP_SCENARIOS) and run first
+        let _ = i;
+        random_world(r).line()
+    }
+
+    const TLDS: [&str; 3] = ["com.", "net.", "org."];
+    const SLDS: [&str; 5] = ["example", "victim", "attacker", "hoster", "x"];
+
+    pub fn random_world(r: &mut Rng) -> Case {
+        let mut w = World::new();
+        let two = r.chance(1, 2);
+        let g0 = w.std_group(if two { 2 } else { 1 });
+        w.zone(".", g0, &["a.root-servers.net."], true);
+        let mut zone_names: Vec<String> = vec![];
+        let ntld = r.range(1, 2) as usize;
+        for t in 0..ntld {
+            let tld = TLDS[(t + r.below(2) as usize) % 3];
+            if zone_names.iter().any(|z| z == tld) {
+                continue;
+            }
+            let g = w.std_group(r.range(1, 2) as usize);
+            let host = format!("a.nic.{tld}");
+            w.zone(tld, g, &[&host], true);
+            zone_names.push(tld.to_string());
+        }
+        // second / third level zones
+        let nz = r.range(1, 4) as usize;
+        let mut hostile: Vec<usize> = vec![];
+        for _ in 0..nz {
+            let parent = r.pick(&zone_names).clone();
+            if parent.matches('.').count() > 2 {
+                continue;
+            }
+            let label = if parent.matches('.').count() == 1 { *r.pick(&SLDS) } else { *r.pick(&["a", "b", "sub"]) };
+            let zn = format!("{label}.{parent}");
+            if zone_names.contains(&zn) {
+                continue;
+            }
+            let nips = r.range(1, 2) as usize;
+            let g = if r.chance(1, 6) && w.group_ips.len() > 2 { r.range(2, w.group_ips.len() as u64 - 1) as usize } else { w.std_group(nips) };
+            // NS host names: in zone, sibling / other zone, or under an unrelated TLD
+            let nhosts = r.range(1, 2) as usize;
+            let mut hosts: Vec<String> = vec![];
+            for h in 0..nhosts {
+                let style = r.below(6);
+                let host = match style {
+                    0 | 1 | 2 => format!("ns{}.{zn}", h + 1),
+                    3 => format!("ns{}.{}", h + 1, r.pick(&zone_names).clone()),
+                    4 => format!("ns.{}.{}", r.pick(&SLDS), r.pick(&zone_names).clone()),
+                    _ => format!("dns{}.outside.{}", h + 1, TLDS[r.below(3) as usize]),
+                };
+                let host = if host.starts_with("ns1..") || host.contains("..") { format!("ns{}.{zn}", h + 1) } else { host };
+                hosts.push(host);
+            }
+            let all_in_zone = hosts.iter().all(|h| h.ends_with(&format!(".{zn}")));
+            let glue = if all_in_zone { r.chance(11, 12) } else { r.chance(1, 2) };
+            let hs: Vec<&str> = hosts.iter().map(|s| s.as_str()).collect();
+            let zi = w.zone(&zn, g, &hs, glue);
+            zone_names.push(zn.clone());
+            if r.chance(1, 3) {
+                hostile.push(w.zones[zi].group);
+            }
+            if r.chance(1, 14) {
+                w.lame.insert(g, r.below(3) as u8);
+            }
+        }
+        // host data
+        let mut hostnames: Vec<String> = vec![];
+        for zn in zone_names.clone() {
+            if zn.matches('.').count() < 2 && r.chance(1, 2) {
+                continue;
+            }
+            let nh = r.range(1, 3);
+            for k in 0..nh {
+                let hn = format!("{}.{zn}", ["www", "mail", "alias", "c"][(k as usize + r.below(4) as usize) % 4]);
+                if hostnames.contains(&hn) {
+                    continue;
+                }
+                hostnames.push(hn);
+            }
+        }
+        for (k, hn) in hostnames.clone().iter().enumerate() {
+            match r.below(7) {
+                0 | 1 if hostnames.len() > 1 => {
+                    let t = r.pick(&hostnames).clone();
+                    let rec = w.cname(hn, &t);
+                    w.add_auto(rec);
+                }
+                2 => {
+                    let rec = w.rec(hn, RD::T(k as u32));
+                    w.add_auto(rec);
+                }
+                3 => {
+                    let rec = w.rec(hn, RD::Q((0x2a00u128 << 112) | (k as u128 + 1)));
+                    w.add_auto(rec);
+                    let rec = w.a(hn, v4(44, 1, 1, k as u8 + 1));
+                    w.add_auto(rec);
+                }
+                _ => {
+                    let rec = w.a(hn, v4(44, 1, 1, k as u8 + 1));
+                    w.add_auto(rec);
+                }
+            }
+        }
+        w.finish();
+        // hostile additions: records with arbitrary owners in arbitrary sections
+        let all_names: Vec<usize> = (0..w.names.len()).collect();
+        let evil_ips = [v4(66, 6, 6, 6), v4(66, 6, 6, 7)];
+        for g in hostile.clone() {
+            let n_inj = r.range(1, 3);
+            for _ in 0..n_inj {
+                let owner = *r.pick(&all_names);
+                let attacker_ip = if !w.group_ips[g].is_empty() && r.chance(1, 2) { w.group_ips[g][0] } else { *r.pick(&evil_ips) };
+                let data = match r.below(5) {
+                    0 | 1 => match attacker_ip {
+                        IpAddr::V4(x) => RD::A(u32::from(x)),
+                        IpAddr::V6(x) => RD::Q(u128::from(x)),
+                    },
+                    2 | 3 => RD::N(*r.pick(&all_names)),
+                    _ => RD::C(*r.pick(&all_names)),
+                };
+                let rec = Rec { name: owner, ttl: w.ttl, data };
+                w.extras.push(Extra {
+                    group: g,
+                    qname: if r.chance(1, 3) { Some(*r.pick(&all_names)) } else { None },
+                    qtype: if r.chance(1, 2) { Some(*r.pick(&[1u16, 28, 2])) } else { None },
+                    section: r.below(3) as u8,
+                    rec,
+                });
+            }
+        }
+        // queries
+        let mut qs = vec![];
+        let nq = r.range(1, 3);
+        for _ in 0..nq {
+            let name = if r.chance(4, 5) && !hostnames.is_empty() {
+                r.pick(&hostnames).clone()
+            } else if r.chance(1, 2) {
+                r.pick(&zone_names).clone()
+            } else {
+                format!("nx{}.{}", r.below(3), r.pick(&zone_names))
+            };
+            let n = w.intern(&name);
+            let t = *r.pick(&[1u16, 1, 1, 28, 2, 16, 5, 43, 255]);
+            qs.push((n, t));
+            if r.chance(1, 3) {
+                qs.push((n, t));
+            }
+        }
+        let rl = if r.chance(3, 4) { 24 } else { *r.pick(&[0u8, 1, 2, 3, 5, 8, 255]) };
+        let nl = if r.chance(3, 4) { 24 } else { *r.pick(&[0u8, 1, 2, 3, 4, 5, 6, 8, 16, 255]) };
+        let roots = w.group_ips[0].clone();
+        let mut c = w.case(roots, qs, rl, nl);
+        // filters
+        let mut all_ips: Vec<IpAddr> = c.groups.iter().flat_map(|g| g.ips.clone()).collect();
+        all_ips.extend(evil_ips);
+        if r.chance(1, 6) {
+            c.deny_srv.push(net32(*r.pick(&all_ips)));
+            if r.chance(1, 3) {
+                c.deny_srv.push(IpNet::new(v4(44, 0, 0, 0), 16).unwrap());
+                c.allow_srv.push(IpNet::new(v4(44, 0, 0, 0), *r.pick(&[21u8, 22, 23])).unwrap());
+            }
+        }
+        if r.chance(1, 6) {
+            c.deny_ans.push(IpNet::new(v4(44, 1, 1, 0), *r.pick(&[24u8, 30, 31, 32])).unwrap());
+            if r.chance(1, 3) {
+                c.allow_ans.push(net32(v4(44, 1, 1, 1)));
+            }
+        }
+        if r.chance(1, 8) {
+            c.deny_ans.push(net32(evil_ips[0]));
+        }
+        // raw table mutations: a random record dropped into a random section of a random entry
+        let keys: Vec<(usize, usize, u16)> = c.table.keys().cloned().collect();
+        if !keys.is_empty() {
+            let nm = if r.chance(1, 2) { r.range(0, 3) } else { 0 };
+            for _ in 0..nm {
+                let k = *r.pick(&keys);
+                let pool: Vec<Rec> = c.table.values().flat_map(|x| x.all().cloned().collect::<Vec<_>>()).collect();
+                if pool.is_empty() {
+                    break;
+                }
+                let mut rec = r.pick(&pool).clone();
+                if r.chance(1, 2) {
+                    rec.name = r.below(c.names.len() as u64) as usize;
+                }
+                let e = c.table.get_mut(&k).unwrap();
+                match r.below(4) {
+                    0 => e.ans.push(rec),
+                    1 => e.auth.push(rec),
+                    2 => e.add.push(rec),
+                    _ => e.aa = !e.aa,
+                }
+            }
+        }
+        c
+    }
+}
+
+mod stub {
+    //! alias chasing of the stub resolver: the real `Resolver` (CachingClient::inner_lookup, DepthTracker)
+    //! over one mocked upstream that answers from a table; default answer NXDOMAIN.
+    use super::*;
+    use hickory_resolver::config::{NameServerConfig, ResolverConfig, ResolverOpts};
+    use hickory_resolver::Resolver;
+
+    const UPSTREAM: IpAddr = IpAddr::V4(Ipv4Addr::new(44, 9, 9, 9));
+
+    fn parse(t: &[&str]) -> Option<Case> {
+        if t.len() != 4 {
+            return None;
+        }
+        let names = parse_list(t[1], ',', parse_name)?;
+        let mut table = BTreeMap::new();
+        for (k, r) in parse_list(t[2], ';', |e| {
+            let (k, r) = e.split_once('=')?;
+            let (n, ty) = k.split_once(',')?;
+            Some(((0usize, n.parse::<usize>().ok()?, ty.parse::<u16>().ok()?), parse_resp(r)?))
+        })? {
+            table.insert(k, r);
+        }
+        let (n, ty) = t[3].split_once(',')?;
+        let c = Case {
+            rl: 0,
+            nl: 0,
+            roots: vec![UPSTREAM],
+            deny_srv: vec![],
+            allow_srv: vec![],
+            deny_ans: vec![],
+            allow_ans: vec![],
+            names,
+            groups: vec![Group { ips: vec![UPSTREAM], default: Resp { rcode: 3, aa: true, ..Default::default() } }],
+            table,
+            queries: vec![(n.parse().ok()?, ty.parse().ok()?)],
+        };
+        let nn = c.names.len();
+        let ok = c.table.iter().all(|((_, n, _), r)| {
+            *n < nn
+                && r.all().all(|x| {
+                    x.name < nn
+                        && match x.data {
+                            RD::N(y) | RD::C(y) => y < nn,
+                            _ => true,
+                        }
+                })
+        });
+        if !ok || c.queries[0].0 >= nn {
+            return None;
+        }
+        Some(c)
+    }
+
+    fn run_stub(case: Arc<Case>) -> Result<(bool, usize), String> {
+        let rt = tokio::runtime::Builder::new_current_thread().enable_all().build().map_err(|e| e.to_string())?;
+        rt.block_on(async move {
+            let log = Arc::new(Mutex::new(vec![]));
+            let net = MockNet { case: case.clone(), log: log.clone(), rt: TokioRuntimeProvider::default() };
+            let config = ResolverConfig::from_parts(None, vec![], vec![NameServerConfig::udp(UPSTREAM)]);
+            let mut opts = ResolverOpts::default();
+            opts.attempts = 0;
+            opts.ndots = 0;
+            let resolver = Resolver::builder_with_config(config, net).with_options(opts).build().map_err(|e| format!("build: {e}"))?;
+            let (n, t) = case.queries[0];
+            let fut = resolver.lookup(case.names[n].clone(), RecordType::from(t));
+            let res = tokio::time::timeout(Duration::from_secs(60), fut).await.map_err(|_| "hang".to_string())?;
+            let sends = log.lock().unwrap().iter().filter(|e| matches!(e, Event::Send(..))).count();
+            Ok((res.is_ok(), sends))
+        })
+    }
+
+    pub fn exec(line: &str, t: &[&str], rec: &mut Recorder) {
+        let Some(case) = parse(t) else {
+            rec.stat("skipped.unparsable-case");
+            return;
+        };
+        let case = Arc::new(case);
+        let (tx, rx) = std::sync::mpsc::channel();
+        let c2 = case.clone();
+        std::thread::spawn(move || {
+            let r = catch(|| run_stub(c2));
+            let _ = tx.send(match r {
+                Ok(r) => r,
+                Err(p) => Err(format!("panic {p}")),
+            });
+        });
+        let res = rx.recv_timeout(Duration::from_secs(120)).unwrap_or(Err("hang".into()));
+        rec.stat("op.stub");
+        match res {
+            Ok((ok, n)) => {
+                let idx = rec.case(line.to_string(), format!("{} n={n}", b(ok)));
+                rec.stat(&format!("stub.upstream-queries.{n}"));
+                rec.stat(if ok { "stub.answered" } else { "stub.failed" });
+                if n > 8 {
+                    rec.fail(idx, format!("stub resolver sent {n} upstream queries for one lookup (> MAX_QUERY_DEPTH = 8)"), "");
+                }
+                if n >= 2 {
+                    rec.nontrivial(idx);
+                }
+            }
+            Err(e) => {
+                let idx = rec.case(line.to_string(), e.clone());
+                rec.fail(idx, format!("stub lookup did not end with an answer or an error: {e}"), "");
+            }
+        }
+    }
+
+    /// alias chains of every length (shorter, equal to, longer than the limit), loops, chains packed into one
+    /// answer, data for the final name present or absent
+    pub fn gen(r: &mut Rng) -> String {
+        let mut names: Vec<Name> = vec![];
+        let k = r.range(0, 12) as usize;
+        let looped = r.chance(1, 5);
+        let nn = k + 1;
+        for i in 0..nn {
+            names.push(Name::from_ascii(format!("h{i}.example{}.test-zone.", i % 3)).unwrap());
+        }
+        let qt = *r.pick(&[1u16, 1, 1, 28, 16, 5, 255]);
+        let mut table: Vec<String> = vec![];
+        let data = |n: usize, qt: u16| -> String {
+            match qt {
+                28 => format!("{n}:300:Q{}", 0x2a00u128 << 112 | 7),
+                16 => format!("{n}:300:T7"),
+                _ => format!("{n}:300:A{}", u32::from(Ipv4Addr::new(44, 1, 1, 1))),
+            }
+        };
+        let mut i = 0;
+        while i < nn {
+            // how many hops this response carries in its answer section
+            let pack = if r.chance(1, 4) { r.range(2, 3) as usize } else { 1 };
+            let mut ans: Vec<String> = vec![];
+            let mut j = i;
+            while j < i + pack && j < nn {
+                let last = j + 1 == nn;
+                if last && !looped {
+                    if r.chance(4, 5) {
+                        ans.push(data(j, if qt == 5 || qt == 255 { 1 } else { qt }));
+                    }
+                } else {
+                    let target = if last { r.below(nn as u64) as usize } else { j + 1 };
+                    ans.push(format!("{j}:300:C{target}"));
+                    // sometimes the target's data rides along
+                    if r.chance(1, 6) {
+                        ans.push(data(target, qt));
+                    }
+                }
+                j += 1;
+            }
+            let resp = format!("0/1/{}/-/-", if ans.is_empty() { "-".to_string() } else { ans.join("+") });
+            if !ans.is_empty() {
+                table.push(format!("{i},{qt}={resp}"));
+            }
+            i += 1;
+        }
+        format!(
+            "stub {} {} 0,{qt}",
+            list_tok(&names, ",", name_tok),
+            if table.is_empty() { "-".to_string() } else { table.join(";") }
+        )
+    }
 }
